@@ -27,13 +27,13 @@ H1_GEN = [from_tlc.gen_h1_from_spec]
 
 PROPS: Dict[str, Dict[str, Any]] = {
     "C01": {"monitor": "C01", "generators": [gen_h1.gen_c01, gen_h2.gen_h2_basic] + H1_GEN, "design": H1_DESIGN},
-    "C02": {"monitor": "C02", "generators": [gen_h1.gen_c02, gen_h2.gen_h2_basic] + H1_GEN, "design": H1_DESIGN},
+    "C02": {"monitor": "C02", "generators": [gen_h1.gen_c02, gen_h2.gen_h2_basic, gen_h1.gen_c06] + H1_GEN, "design": H1_DESIGN},
     "C03": {"monitor": "C03", "generators": [gen_h1.gen_c03, gen_h2.gen_h2_faults] + H1_GEN, "design": H1_DESIGN,
             "deviations": [_dev("DevDoubleLog", "AtMostOneAccess"), _dev("DevParked", "Released")]},
     "C05": {"monitor": "C05", "generators": [gen_h1.gen_c05, gen_h2.gen_h2_faults] + H1_GEN, "design": H1_DESIGN},
     "C06": {"monitor": "C06", "generators": [gen_h1.gen_c06] + H1_GEN, "design": H1_DESIGN,
             "deviations": [_dev("DevDiscPutBlocks", "Released")]},
-    "C07": {"monitor": "C07", "generators": [gen_h1.gen_c07, gen_h2.gen_h2_faults] + H1_GEN, "design": H1_DESIGN,
+    "C07": {"monitor": "C07", "generators": [gen_h1.gen_c07, gen_h2.gen_h2_faults, gen_h1.gen_c06] + H1_GEN, "design": H1_DESIGN,
             "deviations": [_dev("DevParked", "Released"), _dev("DevIdleKeeps", "Released"),
                            _dev("DevDiscPutBlocks", "Released")]},
 }
@@ -47,6 +47,25 @@ PROPS["C11"] = {"monitor": "C11", "generators": [gen_ws.gen_c11]}
 PROPS["C12"] = {"monitor": "C12", "generators": [gen_asgi.gen_c12],
                 "design": [{"module": "Asgi", "cfg": "MC_Asgi.cfg"}]}
 PROPS["C13"] = {"monitor": "C13", "generators": [gen_proto.gen_c13]}
+
+
+def gen_c16(tier, rng):
+    """The sessions of C01-C13 (a seeded sample in the quick tier), each executed on both workers."""
+    pools = [gen_h1.gen_c01, gen_h1.gen_c02, gen_h1.gen_c06, gen_h1.gen_c03, gen_h1.gen_c07, gen_h2.gen_h2_basic,
+             gen_h2.gen_flow, gen_h2.gen_release, gen_h2.gen_unusual, gen_h2.gen_h2_faults, gen_ws.gen_c10, gen_ws.gen_c11,
+             gen_asgi.gen_c12, from_tlc.gen_h1_from_spec]
+    for gen in pools:
+        scripts = [s for s in gen(tier, rng) if "variants" not in s]
+        if tier == "quick" and len(scripts) > 45:
+            scripts = rng.sample(scripts, 45)
+        for sc in scripts:
+            sc = dict(sc)
+            sc["pair_workers"] = True
+            sc["fam"] = "pair/" + sc.get("fam", "")
+            yield sc
+
+
+PROPS["C16"] = {"monitor": "C16", "generators": [gen_c16], "workers": ["pair"]}
 PROPS["C17"] = {"monitor": "C17", "adapter": "c17",
                 "design": [{"module": "Wsgi", "cfg": "MC_Wsgi.cfg"}],
                 "technique": "TLA+ oracle (Wsgi.tla) model-checked by TLC + TLC validation of real executions of every enumerated case"}
